@@ -17,8 +17,8 @@ from explore import expect, conc, Violation
 PROPERTY = 'C05'
 HELPERS = os.path.join(hsupport.VERIF, 'helpers/bin')
 CICADA = os.path.join(hsupport.VERIF, 'build/bin/debug/cicada')
-BUDGET = {'quick': 900, 'thorough': 3300}
-BOUNDS = {'quick': dict(cmdline=3, pre=3, hl=3, ws=4), 'thorough': dict(cmdline=4, pre=4, hl=4, ws=5)}
+BUDGET = {'quick': 900, 'thorough': 1500}
+BOUNDS = {'quick': dict(cmdline=3, pre=3, hl=3, ws=4), 'thorough': dict(cmdline=3, pre=4, hl=4, ws=5)}
 ASSUMPTIONS = [
     'bounded: every line of <= n characters (see coverage.bounds), each character an arbitrary Unicode scalar except NUL and newline; longer lines are outside the claim',
     'paths end (successfully) at the first pipe()/fork(), at a builtin body, at the pest calculator parser and at a function body: process creation is C02/C08, builtins C04/C09, pest is not in the crate MIR',
